@@ -34,14 +34,19 @@ def main():
         "\tseed := &globalRand.seed\n\tif len(startupRand) >= 16 &&",
         "\tseed := &globalRand.seed\n\tif verifSeedInit(seed) {\n\t} else if len(startupRand) >= 16 &&",
         "randinit")
+    src = sub1(src, '\t"internal/runtime/math"\n', '\t"internal/runtime/math"\n\t"internal/runtime/sys"\n', "imports")
     src = sub1(src,
         "func rand() uint64 {\n",
-        "func rand() uint64 {\n\tif verifSimDeterministic && verifInSim() {\n\t\treturn verifSimNext()\n\t}\n",
+        "func rand() uint64 {\n\tif verifSimDeterministic && verifInSim() {\n\t\treturn verifSimNextPC(sys.GetCallerPC())\n\t}\n",
         "rand")
     src = sub1(src,
         "func cheaprand() uint32 {\n\tmp := getg().m\n",
-        "func cheaprand() uint32 {\n\tif verifSimDeterministic && verifInSim() {\n\t\treturn uint32(verifSimNext() >> 32)\n\t}\n\tmp := getg().m\n",
+        "func cheaprand() uint32 {\n\tif verifSimDeterministic && verifInSim() {\n\t\treturn uint32(verifSimNextPC(sys.GetCallerPC()) >> 32)\n\t}\n\tmp := getg().m\n",
         "cheaprand")
+    src = sub1(src,
+        "func cheaprandn(n uint32) uint32 {\n",
+        "func cheaprandn(n uint32) uint32 {\n\tif verifSimDeterministic && verifInSim() {\n\t\treturn uint32((uint64(uint32(verifSimNextPC(sys.GetCallerPC())>>32)) * uint64(n)) >> 32)\n\t}\n",
+        "cheaprandn")
     src += r'''
 
 // ---- verif deterministic-simulation mode (private overlay copy; see /verif/tools/rtpatch.py)
@@ -120,6 +125,29 @@ func verifInSim() bool {
 		}
 	}
 	return false
+}
+
+//go:nosplit
+func verifSimNextPC(pc uintptr) uint64 {
+	verifDrawPC[verifSimDraws%uint64(len(verifDrawPC))] = pc
+	return verifSimNext()
+}
+
+var verifDrawPC [1 << 15]uintptr
+
+// verifDrawPCs copies the caller PCs of the draws of the current run (debugging aid).
+//
+//go:linkname verifDrawPCs
+func verifDrawPCs(dst []uintptr) int {
+	n := int(verifSimDraws)
+	if n > len(verifDrawPC) {
+		n = len(verifDrawPC)
+	}
+	if n > len(dst) {
+		n = len(dst)
+	}
+	copy(dst, verifDrawPC[:n])
+	return n
 }
 
 //go:nosplit
